@@ -11,7 +11,9 @@ DEF_RX = dict(DEF_RX, scala=r"^\s*(?:case class|class|sealed trait|type) (\w+)")
 # incl. workspace crates whose names merely *start* like a crate the import collector ignores (time, http, std, serde …)
 CRATES = ["alpha", "beta-x", "gamma_y", "delta", "eps-i-lon", "time-series", "http_api", "std_ext", "serde-models",
           # directory names with dots (namespaced / versioned): the part after the last dot is not a file extension
-          "acme.core", "acme.net", "shapes-0.3.1"]
+          "acme.core", "acme.net", "shapes-0.3.1",
+          # letter case is part of the name (legal, if unconventional)
+          "coreTypes", "apiV2"]
 
 
 def file_name(lang, crate):
@@ -144,6 +146,31 @@ def uses_of(text, names):
     return {n for n in names if re.search(r"\b%s\b" % re.escape(n), text)}
 
 
+def replay_file_collision(check):
+    """the witness of TsV.C14.C14_file_names_not_full on the real binary: two crates whose names have one PascalCase form share one
+    Swift file; the module written second replaces the first (open finding swift-module-file-collision)"""
+    with Scratch() as sc:
+        sc.write("ws/SharedModels/src/lib.rs", "#[typeshare]\npub struct FromCamelCrate { pub a: u8 }\n")
+        sc.write("ws/shared_models/src/lib.rs", "#[typeshare]\npub struct FromSnakeCrate { pub b: u8 }\n")
+        res = {}
+        for lang in ("swift", "typescript"):
+            r = run_cli(["--lang", lang, "-d", sc.path("out_" + lang), sc.path("ws")], cwd=sc.dir)
+            files = sorted(os.listdir(sc.path("out_" + lang))) if os.path.isdir(sc.path("out_" + lang)) else []
+            text = "".join(open(os.path.join(sc.path("out_" + lang), f), encoding="utf-8").read() for f in files)
+            res[lang] = (r["rc"], files, "FromCamelCrate" in text, "FromSnakeCrate" in text)
+    check.saw(("file-collision-witness",), nontrivial=True)
+    rc, files, a, b = res["swift"]
+    if rc == 0 and not (a and b):
+        if not check.known("swift-module-file-collision", {"crates": ["SharedModels", "shared_models"], "swift_files": files,
+                                                           "FromCamelCrate_written": a, "FromSnakeCrate_written": b}):
+            check.violation("swift -d: the crates `SharedModels` and `shared_models` are written to one file (%s): a type of one of them is "
+                            "in no file" % files, case={"crates": ["SharedModels", "shared_models"]}, impl={"files": files}, failing_input=True)
+    rc, files, a, b = res["typescript"]
+    if rc == 0 and not (a and b and len(files) == 2):
+        check.violation("typescript -d: the crates `SharedModels` and `shared_models` do not get one file each: %s" % files,
+                        case={"crates": ["SharedModels", "shared_models"]}, impl={"files": files}, failing_input=True)
+
+
 def run(check):
     rng = check.rng
     nws = 240 if check.thorough else 42
@@ -219,6 +246,10 @@ def run(check):
                             problem = "import from %r, which is not another generated module" % mod
                             continue
                         other_text = outs[file_name(lang, src[0]["crate"])]
+                        if lang == "kotlin":
+                            pk = re.search(r"^package (\S+)$", other_text, re.M)
+                            if pk and pk.group(1) != "com.example." + mod:
+                                problem = "import from package com.example.%s, but the module of that crate declares `package %s`" % (mod, pk.group(1))
                         for n in names:
                             if not re.search(r"\b%s\b" % re.escape(n), other_text):
                                 problem = "import of %s from %s, which does not define it" % (n, mod)
@@ -294,6 +325,7 @@ def run(check):
             check.sample({"lang": lang, "sources": [f["rel"] for f in files], "files_written": sorted(outs)})
     witnesses(check)
     crate_paths(check)
+    replay_file_collision(check)
     check.assumptions += ["path components are taken as the OS gives them (no symlink resolution modelled)",
                           "completeness of the import clause is claimed only for plain / grouped `use` of un-renamed types (see the open findings)"]
 
